@@ -182,7 +182,7 @@ def format_template(tpl, args):
     out, i, k = [], 0, 0
     while i < len(tpl):
         c = tpl[i]
-        if c == "\\" and i + 1 < len(tpl) and tpl[i + 1] in "{}\\'":
+        if c == "\\" and i + 1 < len(tpl) and tpl[i + 1] in "{}":   # \\' and \\\\ were decoded with the string literal
             out.append(tpl[i + 1])
             i += 2
         elif c == "{":
@@ -290,7 +290,7 @@ def call(name, args):
         try:
             return base64.b64decode(args[0].encode("utf-8"), validate=True).decode("utf-8")
         except Exception:
-            raise IntrinsicFailure("invalid base64")
+            raise Unspecified("text that is not canonical base64 of UTF-8 (lenient decoders differ)")
     if name == "States.Hash":
         need(2)
         algs = {"MD5": "md5", "SHA-1": "sha1", "SHA-256": "sha256", "SHA-384": "sha384", "SHA-512": "sha512"}
